@@ -755,6 +755,7 @@ package client
 
 //@ model func skipped(g *verifGhost, key string) bool
 //@ model func scanned(g *verifGhost, place string) bool
+//@ model func stopMark(g *verifGhost, c Client) int
 //@ spec func inList(l []data.NodeEdge, x data.NodeEdge) bool = exists j int :: 0 <= j && j < len(l) && l[j] == x
 //@ spec func kidsListed(nc *nats.Conn, typ string, l []data.NodeEdge) bool = forall p string, i int :: scanned(verifG, p) && !old(scanned(verifG, p)) && 0 <= i && i < kidsN(nc, p, typ) ==> inList(l, kid(nc, p, typ, i))
 //@ spec func skippedSame() bool = forall k string :: skipped(verifG, k) == old(skipped(verifG, k))
@@ -784,13 +785,14 @@ package client
 //@   assert [C07] no-second-client-for-a-placement: !has(m.clientStates, placement(n)) at "newClientState(m.nc, m.construct, n)"
 //@   assert [C07] client-registered-under-its-placement: cs != nil && has(m.clientStates, placement(n)) && m.clientStates[placement(n)] == cs && cs.node == n at "fmt.Sprintf(\"up.%v.>\", cs.node.ID)"
 //@   assert [C07] only-vanished-placements-stopped: !has(found, key) && client == m.clientStates[key] at "client.stop(nil)"
+//@   ensures treeKept(m.nc) && m.clientStates != nil && m.clientUpSub != nil
 //@   ensures [C07] client-states-kept: forall k string :: old(has(m.clientStates, k)) ==> has(m.clientStates, k) && m.clientStates[k] == old(m.clientStates[k])
 //@   ensures [C07] no-nil-state: forall k string :: has(m.clientStates, k) ==> m.clientStates[k] != nil
 //@   loop 1:
 //@     invariant -1 <= rangeindex && rangeindex < len(nodes) || rangeindex == -1
 //@     invariant forall k string :: old(has(m.clientStates, k)) ==> has(m.clientStates, k) && m.clientStates[k] == old(m.clientStates[k])
 //@     invariant forall k string :: has(m.clientStates, k) ==> m.clientStates[k] != nil
-//@     invariant skippedKept()
+//@     invariant skippedKept() && treeKept(m.nc)
 //@     invariant forall k string :: has(m.clientStates, k) && !old(has(m.clientStates, k)) ==> has(found, k)
 //@     invariant forall p string, i int :: reachP(m.nc, m.parentTypes, id, p) && 0 <= i && i < kidsN(m.nc, p, m.nodeType) ==> inList(nodes, kid(m.nc, p, m.nodeType, i))
 //@     invariant [C07] found-is-the-scanned-placements: forall j int :: 0 <= j && j <= rangeindex ==> has(found, placement(nodes[j]))
@@ -807,6 +809,56 @@ package client
 //@     invariant forall c Client :: stopReqs(c) >= preloop(stopReqs(c))
 //@     invariant [C07] visited-vanished-placements-stopped: forall k string :: visited(k) && has(m.clientStates, k) && !has(found, k) ==> stopReqs(m.clientStates[k].client) > preloop(stopReqs(m.clientStates[k].client))
 //@     modifies state(client.Client)
+
+//@ extern time.NewTimer(d)
+//@   fresh res0
+//@   ensures res0 != nil
+//@ extern time.(*Timer).Stop(t)
+//@ extern time.(*Timer).Reset(t, d)
+//@ extern time.After(d)
+//@ extern time.Sleep(d)
+//@ extern github.com/nats-io/nats.go.(*Subscription).Unsubscribe(s)
+//@ extern github.com/nats-io/nats.go.(*Subscription).Drain(s)
+//@ extern github.com/nats-io/nats.go.(*Subscription).IsValid(s)
+
+// the `scan` closure of Run: no scan (hence no new client) once the manager is stopping
+//@ func (*Manager[T]).Run$2
+//@   props C07
+//@   requires m != nil && m.clientStates != nil && m.clientUpSub != nil && busAcyclic(m.nc)
+//@   requires forall k string :: has(m.clientStates, k) ==> m.clientStates[k] != nil
+//@   modifies m.clientStates, m.clientUpSub, state(m.nc), state(client.Client), state(client.verifGhost)
+//@   summary
+//@   ensures treeKept(m.nc) && m.clientStates != nil && m.clientUpSub != nil
+//@   ensures forall k string :: has(m.clientStates, k) ==> m.clientStates[k] != nil
+//@   ensures forall k string :: old(has(m.clientStates, k)) ==> has(m.clientStates, k) && m.clientStates[k] == old(m.clientStates[k])
+//@   ensures [C07] nothing-changes-once-stopping: stopping ==> (forall k string :: has(m.clientStates, k) == old(has(m.clientStates, k)))
+//@   assert [C07] no-scan-once-stopping: !stopping at "m.scan(m.root)"
+
+//@ func (*Manager[T]).Run
+//@   props C07
+//@   local m *client.Manager[T]#1
+//@   local c *client.clientState[T]#1
+//@   local key string#1
+//@   requires m != nil && m.clientStates != nil && m.clientUpSub != nil && busAcyclic(m.nc)
+//@   requires forall k string :: has(m.clientStates, k) ==> m.clientStates[k] != nil
+//@   modifies m, m.clientStates, m.clientUpSub, state(m.nc), state(client.Client), state(client.verifGhost)
+//@   havoc state(client.verifGhost) at "m.upSub.Unsubscribe()"
+//@   assume stop-requests-marked: forall c Client :: stopMark(verifG, c) == stopReqs(c) at "m.upSub.Unsubscribe()"
+//@   assert [C07] stop-asks-every-client-to-stop: forall k string :: has(m.clientStates, k) ==> stopReqs(m.clientStates[k].client) > stopMark(verifG, m.clientStates[k].client) at "shutdownTimer.Reset(time.Second * 5)"
+//@   assert [C07] stopped-client-forgotten-before-the-rescan: !has(m.clientStates, key) && !has(m.clientUpSub, key) at "scan()" #3
+//@   loop 1:
+//@     invariant m.clientStates != nil && m.clientUpSub != nil && busAcyclic(m.nc)
+//@     invariant forall k string :: has(m.clientStates, k) ==> m.clientStates[k] != nil
+//@     modifies m.clientStates, m.clientUpSub, state(m.nc), state(client.Client), state(client.verifGhost)
+//@   loop 2:
+//@     invariant forall k string :: has(m.clientStates, k) ==> m.clientStates[k] != nil
+//@     invariant forall c Client :: stopReqs(c) >= stopMark(verifG, c)
+//@     invariant [C07] forall k string :: visited(k) && has(m.clientStates, k) ==> stopReqs(m.clientStates[k].client) > stopMark(verifG, m.clientStates[k].client)
+//@     modifies state(client.Client)
+//@   loop 3:
+//@     invariant true
+//@   loop 4:
+//@     invariant forall k string :: has(m.clientStates, k) ==> m.clientStates[k] != nil
 
 // ---- node.go: GetNodesForUser (C09) ---------------------------------------------------------------------------
 // below(nc, a, n): n is a descendant of a in the tree the bus shows.
